@@ -15,7 +15,7 @@ pub fn meta(tier: &str) -> CheckMeta {
         rule: "E-box over queries x trees. Query family (enumerated completely from a pattern AST, per language stmts/arith/jsonish): root in {3-4 named kinds, (_), _, anonymous, (ERROR), (MISSING), (MISSING kind), (MISSING \"tok\"), supertype, supertype/subtype}; 0..2 child patterns each in {named kinds, (_), _, anonymous, extra (comment), nested one-child pattern}; optional field per child; negated field; anchors in every slot (. a, a . b, a .); one alternation in a child slot; one quantifier in {?,*,+} on a child; a capture on every pattern node. Trees: seeds + all strings of <=2 lexemes (valid and erroneous) + trees after one edit and re-parse. Oracle: an independent backtracking matcher over the explicit tree, written from the query documentation. Soundness for every query: each returned match is one of the reference bindings. Completeness for quantifier-free patterns: the returned bindings equal the reference set, each exactly once. Compile time: a rejected pattern carries an error offset <= source length, and no rejected pattern has a reference match in an error-free tree. Non-trivial = (query, tree) pairs with at least one reference match.",
         assumptions: vec!["anchors adjacent to anonymous/wildcard child patterns and to quantified patterns are outside the asserted family (the documentation leaves them open)".into()],
         exhaustive: true,
-        bounds: json!({"tier": tier, "max_children": 2, "tree_doc_lexemes": 2}),
+        bounds: json!({"tier": tier, "max_children": 2, "tree_doc_lexemes": if tier == "thorough" { 3 } else { 2 }, "queries": "the whole family in both tiers"}),
     }
 }
 
@@ -171,7 +171,7 @@ pub fn worker(ctx: &Ctx, res: &mut ShardResult) {
         let mut parser = Parser::new();
         parser.set_language(&info.language).unwrap();
         let mut trees: Vec<(Vec<u8>, Tree, XTree, bool)> = vec![];
-        for d in crate::docs::docs(&z, 2) {
+        for d in crate::docs::docs(&z, if ctx.quick() { 2 } else { 3 }) {
             let t = parser.parse(&d, None).unwrap();
             let xt = XTree::build(&t);
             let clean = !xt.has_error_or_missing();
@@ -189,7 +189,7 @@ pub fn worker(ctx: &Ctx, res: &mut ShardResult) {
             trees.push((d, t, xt, clean));
         }
         let fam = family(&ql);
-        let stride = if ctx.mini() { 40 } else if ctx.quick() { 4 } else { 1 };
+        let stride = if ctx.mini() { 40 } else { 1 };
         let mut cursor = QueryCursor::new();
         for (qi, p) in fam.iter().enumerate() {
             idx += 1;
